@@ -46,7 +46,13 @@ var behaviours = []behaviour{
 	{"index-out-of-range", true, func(t *f1testing.T) { var s []int; i := 3; _ = s[i] }},
 	{"nil-func-call", true, func(t *f1testing.T) { var f func(); f() }},
 	{"panic(wrapped-error)", true, func(t *f1testing.T) { panic(fmt.Errorf("wrapped: %w", io.EOF)) }},
+	{"panic(typed-nil-pointer)", true, func(t *f1testing.T) { var p *custom; panic(p) }},
+	{"panic(nil-error-pointer)", true, func(t *f1testing.T) { var e *nilErr; var err error = e; panic(err) }},
 }
+
+type nilErr struct{}
+
+func (*nilErr) Error() string { return "nil receiver error" }
 
 func runSeq(r *hlib.Rec, seq []int, mode string, conc int) {
 	r.Eval()
@@ -127,7 +133,7 @@ func firstLine(s string) string {
 }
 
 func suiteOneWorker(maxLen int) hlib.Suite {
-	return hlib.Suite{Name: fmt.Sprintf("one-worker/all-sequences<=%d/17-behaviours", maxLen), Weight: 3, Run: func(r *hlib.Rec) {
+	return hlib.Suite{Name: fmt.Sprintf("one-worker/all-sequences<=%d/19-behaviours", maxLen), Weight: 3, Run: func(r *hlib.Rec) {
 		n := len(behaviours)
 		var rec func(cur []int)
 		rec = func(cur []int) {
